@@ -398,7 +398,7 @@ func (e *exec) schedule() {
 	g := e.g
 	timers := map[int]int64{} // model timer index -> goroutine id
 	doneTimers := map[int]bool{}
-	next := 0                 // next chunk (symbol) to deliver
+	next := 0 // next chunk (symbol) to deliver
 	logf := func(f string, a ...any) { e.res.Log = append(e.res.Log, fmt.Sprintf(f, a...)) }
 	// settle waits until the goroutine just released has reached its next
 	// observable point (a gate, or the reader waiting for input); when it
